@@ -24,6 +24,9 @@ FAULTS = [
     ("like-impl-for-other-type", ("string",), ("str", "abc"), "=~ 5", "5"),
     ("like-impl-for-other-type-expr", ("string",), ("str", "abc"), "=~ (1, 2)", "(1, 2)"),
     ("like-impl-for-other-type-bool", ("string",), ("str", "abc"), "=~ true", "true"),
+    # a string literal against values whose type has exactly one AsRef impl, with another target (the `as_ref()` of the string template resolves)
+    ("wrong-literal-type-on-box", ("box", ("int", "i32")), ("box", ("int", 3)), '"three"', '"three"'),
+    ("wrong-literal-type-on-box-raw", ("box", ("bool",)), ("box", ("bool", True)), 'r"yes"', 'r"yes"'),
     # operands written as more than one token (on a stable compiler spans cannot be joined: the stamp is the first token's)
     ("wrong-operand-type-negative", ("string",), ("str", "abc"), "== -1", "-1"),
     ("wrong-operand-type-negative-float", ("int", "i32"), ("int", 3), "> -1.5", "-1.5"),
